@@ -183,6 +183,11 @@ def r18b(ctx, f):
         stale = [r for r in rs if any(site_node.get(r) not in a.loop_nodes[h] for h in comp_loops)]
         if stale:
             ctx.bad('R18b', k, 'blinding randomness is sampled once outside the loop that encrypts the messages (one blinding pair for all messages)', f, line=ev[3])
+        elif len(rs) < 2:
+            # w_i = x^{s_i} g^{r_i}, key_i = z_i^{s_i} y^{r_i}: with s_i missing (left at its initial value) the key is y^{r_i} = w_i^b,
+            # which the chooser can compute for every index -- the messages not chosen open as well
+            ctx.bad('R18b', k, 'a ciphertext is blinded with one random exponent only: the pair (r_i, s_i) is incomplete, the key no longer depends on the query '
+                    'element z_i and the chooser can open this message whatever it asked for', f, line=ev[3])
         else:
             ctx.ok('R18b', k, 'ciphertext depends on randomness sampled where it is computed', f, line=ev[3])
         used.append((nid, rs))
